@@ -13,6 +13,8 @@
       same theta_alpha index).
  R02e scale-after-quantise ordering: the weight quantizer is applied before its scale is
       read for the bias in every MPS* / Quant* forward.
+ R02f option slots (shared with C10 R10d): update_softmax_options forwards every option to
+      the parameter of the same name of EVERY override the receiver can dispatch to.
 """
 from __future__ import annotations
 
@@ -287,6 +289,18 @@ def run(ctx):
         if 'SuperNet' in o.construct:
             continue
         o.rule = 'R02a'
+        keep.append(o)
+    ctx.obligations[before:] = keep
+    # the sampler options reach every MPS quantizer in their own slot (shared with C10 R10d):
+    # a layer that receives disable_sampling in place of gumbel never re-samples, so its
+    # eval-mode coefficients are not the one-hot export assumes
+    before = len(ctx.obligations)
+    c10.r10d(ctx)
+    keep = []
+    for o in ctx.obligations[before:]:
+        if 'SuperNet' in o.construct:
+            continue
+        o.rule = 'R02f'
         keep.append(o)
     ctx.obligations[before:] = keep
     r02b(ctx)
